@@ -30,12 +30,12 @@ _XSD = """<xs:schema xmlns:xs="http://www.w3.org/2001/XMLSchema">
    <xs:element name="b" type="xs:boolean" minOccurs="0"/>
    <xs:element name="k" minOccurs="0" maxOccurs="3"><xs:complexType>
        <xs:attribute name="id" type="xs:ID"/><xs:attribute name="ref" type="xs:IDREF"/></xs:complexType></xs:element>
-  </xs:sequence><xs:attribute name="q" type="xs:int"/></xs:complexType>
+  </xs:sequence><xs:attribute name="q" type="xs:int"%s/><xs:anyAttribute namespace="##local" processContents="strict"/></xs:complexType>
   <xs:unique name="u"><xs:selector xpath="a"/><xs:field xpath="."/></xs:unique>
  </xs:element></xs:schema>"""
 SCHEMAS = {}
 
-KINDS = ["a=1", "a=2", "a=x", "b=true", "k id=x", "k ref=x", "k ref=y", "z", "a=T"]
+KINDS = ["a=1", "a=2", "a=x", "b= true ", "k id=x", "k ref=x", "k ref=y", "z", "a=T"]
 #         valid  valid  bad    valid     id        ref ok     dangling  undeclared  symbolic text
 
 
@@ -43,7 +43,8 @@ def configure(cfg):
     CFG.update(cfg)
     for v, cls in (("1.0", xmlschema.XMLSchema10), ("1.1", xmlschema.XMLSchema11)):
         if v not in SCHEMAS:
-            SCHEMAS[v] = cls(_XSD)
+            # XSD 1.1: the root attribute is inheritable (the validation context is copied for the subtree when it is present)
+            SCHEMAS[v] = cls(_XSD % (' inheritable="true"' if v == "1.1" else ''))
 
 
 configure({})
@@ -60,16 +61,23 @@ def pre_doc(fn, **kw):
             return False
     if "t" in kw and not (0 <= kw["t"] < len(TEXTS)):
         return False
+    if "q" in kw and not (0 <= kw["q"] < len(QS)):
+        return False
     return True
 
 
 TEXTS = ['1', ' 1 ', '01', '+1', 'x', '', '1 1', '2147483648', '1.0']
+QS = [None, ('q', '1'), ('q', 'x'), ('zz', '1')]          # root attribute: absent, q valid, q invalid, one admitted by the strict wildcard but not declared
 
 
 def _build(kw):
     n = pick(kw["n"], CFG["nmax"] + 1)
     text = TEXTS[pick(kw["t"], len(TEXTS))] if "t" in kw else ""
     root = ET.Element('r')
+    if "q" in kw:
+        q = QS[pick(kw["q"], len(QS))]
+        if q is not None:
+            root.set(q[0], q[1])
     for k in range(n):
         kind = KINDS[pick(kw["c%d" % k], len(KINDS))]
         if kind == 'z':
@@ -308,6 +316,11 @@ def obligations(tier, seed):
                     "config": {"nmax": 2, "sym_text": True, "tmax": 2, "alpha": "1 x", "version": version,
                                "allowed": [[8], [0, 6, 8]] if quick else [[8, 0], [0, 2, 6, 7, 8]]}, "timeout": to, "twin_timeout": 40,
                     "bound": "root + <= 2 children: <a>T</a> then one of <a>1</a>, <k ref=y/>, <a>T</a>; T from %r (finite choice)" % (TEXTS,)})
+        out.append({"name": "agree/%s/root-attribute" % version, "fn": "h_agree", "pre": "pre_doc",
+                    "args": [["n", "int"], ["c0", "int"], ["c1", "int"], ["q", "int"]],
+                    "config": {"nmax": 2, "sym_text": False, "version": version,
+                               "allowed": [[0, 2], [2, 6]] if quick else None}, "timeout": to, "twin_timeout": 40,
+                    "bound": "root attribute q from %r (inheritable in XSD 1.1) + <= 2 children" % (QS,)})
     for k in (1, 2, 3):
         out.append({"name": "cli-exit/%d-files" % k, "engine": "smt", "fn": "smt_cli_exit", "config": {"files": k, "max_errors": 1 << 16},
                     "timeout": 120, "bound": "%d files, 0..65536 errors each or a caught exception" % k})
